@@ -28,6 +28,10 @@ var constructs10 = map[string]string{
 	"mutual_cte":             "WITH c AS (SELECT * FROM d), d AS (SELECT * FROM c) SELECT * FROM d",
 	"self_cte_subquery":      "WITH c AS (SELECT a FROM {T} WHERE a IN (SELECT a FROM `<-c`)) SELECT * FROM c",
 	"cte_unused":             "WITH c AS (SELECT nosuch(a) FROM {T}) SELECT a FROM {T}",
+	"cte_index_path":         "WITH c AS (SELECT a, n FROM {T}) SELECT * FROM `c[0].n`",
+	"cte_key_path":           "WITH c AS (SELECT a, o FROM {T}) SELECT k FROM c.o",
+	"cte_in_cte_path":        "WITH c AS (SELECT a, n FROM {T}), d AS (SELECT * FROM `c[each].n`) SELECT * FROM `d[0]`",
+	"cte_path_in_subquery":   "WITH c AS (SELECT a, n FROM {T}) SELECT a, (SELECT p FROM `<-c[0].n`) AS s FROM {T}",
 	"unbalanced_open":        "SELECT [1, 2 AS v FROM {T}",
 	"unbalanced_close":       "SELECT 1] AS v FROM {T}",
 	"brackets_nested":        "SELECT [[1], [a, [s]]] AS v FROM {T}",
